@@ -23,6 +23,7 @@ ASSUMPTIONS = ["E2 small-curve retargeting (see C03)", "OpenSSL via `cryptograph
                "vf/ref/base58_ref.py for WIF validity"]
 OBLIGATIONS = {
     "concurrent_calls": "interleavings of two concurrent calls (single-case checks in two threads, cold and after warm-up calls)",
+    "long_history": "operations executed in one long history (every key of a 199-element group, forward / forward / reverse)",
     "history_sequences": "operation sequences (non-initial process states) explored",
     "sec1_wrong_len_for_prefix": "right prefix with the other length offered", "sec1_x_ge_p": "x >= p offered",
     "sec1_off_curve": "off-curve x / (x,y) offered", "sec1_hybrid": "hybrid prefix 06/07 offered",
@@ -258,6 +259,17 @@ def run_case(kind, case):
     return CASES[kind](case)
 
 
+def long_ops(job):
+    """EVERY point of the p=211 curve in both SEC1 forms"""
+    cv = job["curve"]
+    C = smallcurve.curve(cv)
+    ops = []
+    for P in C.all_points():
+        ops.append(("sec1", {"curve": cv, "buf": (bytes([2 + (P[1] & 1)]) + P[0].to_bytes(32, "big")).hex()}))
+        ops.append(("sec1", {"curve": cv, "buf": (b"\x04" + P[0].to_bytes(32, "big") + P[1].to_bytes(32, "big")).hex()}))
+    return ops
+
+
 def seq_ops(job):
     """both parities of the same x, compressed and uncompressed, WIF and (thorough) PEM, in every order"""
     cv = job["curve"]
@@ -288,6 +300,8 @@ def jobs(tier, seed):
         js.append({"name": f"pem/{sh}", "part": "pem", "shard": [sh, 8], "weight": 4})
     from vf.runner import seq_jobs
     js += seq_jobs(2, curve=list(T[0]), weight=3)
+    from vf.runner import long_jobs
+    js += long_jobs(curve=list(T[5]))
     from vf.runner import concur_jobs
     js += concur_jobs(len(CONCUR_SCEN), curve=list(T[0]))
     return js
@@ -299,6 +313,9 @@ def run_job(job):
         ops = seq_ops(dict(job, shard=[0, 1]))
         scens = [{"threads": [ops[i] for i in sc[0]], "warm": [ops[i] for i in sc[1]], "post": [ops[i] for i in (sc[2] if len(sc) > 2 else ())]} for sc in CONCUR_SCEN]
         return run_concur_job(job, scens, run_case, PROPERTY, CONCUR_FILES)
+    if job["part"] == "longhist":
+        from vf.runner import run_long_job
+        return run_long_job(job, long_ops(job), run_case)
     if job["part"] == "seq":
         from vf.runner import run_seq_job
         return run_seq_job(job, seq_ops(job), run_case, depth=3 if job["tier"] == "quick" else 4)
